@@ -55,6 +55,16 @@ SPECIAL_VALID = [
     "v, S { f.get(#[a] 1): 2, .. }", "v, #[a] 1..2", "v, |cl_x| #[a] true",
     "v, S { a: 4294967294 }", "v, Some(0: 1)", "v, E::V(0.f: 1, 1: 2)", "v, (0.0: 1)",
 ]
+# regex literals at the edges of what a regex engine takes (should the macro ever look inside one while it expands): not a regex at all,
+# valid but huge when compiled, deeply nested, empty, classes and flags of every kind, non-ASCII, very long
+REGEX_LITERALS = [
+    r'v, =~ r"("', r'v, =~ r"[a-"', r'v, =~ r"*a"', r'v, =~ r"a{2,1}"', r'v, =~ r"\p{NoSuchClass}"', r'v, =~ r"(?P<n>a)(?P<n>b)"', r'v, =~ r"\q"',
+    r'v, =~ r""', r'v, =~ ""', r'v, =~ r"(?:\w{100}){100}"', r'v, =~ r"(?:\w{1000}){1000}"', r'v, =~ r"a{1000}{1000}"', r'v, =~ r"\pL{5000}"',
+    'v, =~ r"' + "(" * 300 + "a" + ")" * 300 + '"', 'v, =~ r"' + "(" * 2000 + "a" + ")" * 2000 + '"', 'v, =~ r"' + "a|" * 5000 + 'a"',
+    'v, =~ r"' + "[a-z]" * 3000 + '"', 'v, =~ "' + "x" * 70000 + '"', r'v, =~ r"(?i)(?m)(?s)(?x) a b # c"', r'v, =~ r"\b\B\A\z"', 'v, =~ r"日本語\p{Han}+"',
+    r'v, =~ r"(?-u:\xFF)"', r'v, =~ r"\u{110000}"', r'v, =~ r"[[:alpha:]&&[^a]]"', r'v, S { f: =~ r"(?:\w{100}){100}", g: =~ r"(", .. }', r'v, #(=~ r"(?:\w{100}){100}", ..)',
+    r'v, Some(=~ r"[")', r'v, #{ "k": =~ r"(?:\d{500}){500}" }',
+]
 # tuple indices at and above u32::MAX (syn::Index::from asserts index < u32::MAX)
 BIG_INDEX = [
     "v, S { 4294967295: 1 }", "v, S { 4294967296: 1 }", "v, S { a.4294967295: 1, .. }", "v, S { a.4294967296: 1, .. }",
@@ -126,6 +136,8 @@ def corpus(rng, tier):
         out.append((t, "special", None))
     for t in BIG_INDEX:
         out.append((t, "big-index", None))
+    for t in REGEX_LITERALS:
+        out.append((t, "regex-literal", None))
     quick = tier == "quick"
     # valid patterns
     valid = patgen.corpus(random.Random(rng.random()), "quick")
